@@ -1,6 +1,6 @@
 (* C14 — obligations on the per-method effects table regenerated from the source (Gen/T7hist.v) *)
 From Coq Require Import String List Bool.
-From XV Require Import Gen.T7hist.
+From XV Require Import Gen.T7hist Gen.T7inplace.
 Import ListNotations.
 Open Scope string_scope.
 
@@ -46,3 +46,24 @@ Proof. split; reflexivity. Qed.
 (* the source is the rebuilding variant of the history model, and containers copy before renaming *)
 Lemma source_variant : negb list_fit_resets_transformers = false /\ container_add_copies_before_renaming = true.
 Proof. split; reflexivity. Qed.
+
+(* in-place arithmetic (x op= y) occurs only at sites whose target is a fresh local value (a factor just returned by the
+   SVD routine, a scalar counter, a message string, a freshly concatenated array): never on an array read from a model,
+   a container or the user's input, which it would change behind their back *)
+Definition not_in_fit_algorithm (s : string * string * string * string) : bool := negb (String.eqb (snd (fst (fst s))) "_fit_algorithm").
+Lemma inplace_sites_known : inplace_sites =
+  [("xeofs/linalg/_numpy/_svd.py", "fit_transform", "U", "Mult");
+   ("xeofs/linalg/_numpy/_svd.py", "fit_transform", "V", "Mult");
+   ("xeofs/linalg/decomposer.py", "fit", "U", "Mult");
+   ("xeofs/linalg/decomposer.py", "fit", "VT", "Mult");
+   ("xeofs/multi/cca.py", "_apply_pca", "cum_exp_var_ratio", "Sub");
+   ("xeofs/single/_numpy/_sparse_pca.py", "compute_rqb", "nblock", "Add");
+   ("xeofs/single/_numpy/_sparse_pca.py", "compute_rspca", "eigen_values", "Mult");
+   ("xeofs/single/_numpy/_sparse_pca.py", "compute_spca", "R", "Sub");
+   ("xeofs/single/_numpy/_sparse_pca.py", "compute_spca", "alpha", "Mult");
+   ("xeofs/single/_numpy/_sparse_pca.py", "compute_spca", "beta", "Mult");
+   ("xeofs/single/_numpy/_sparse_pca.py", "compute_spca", "n_iter", "Add");
+   ("xeofs/single/_numpy/_sparse_pca.py", "compute_spca", "objective", "Add");
+   ("xeofs/utils/hilbert_transform.py", "_pad_exp", "y_ext", "Add");
+   ("xeofs/utils/xarray_utils.py", "get_dims", "err_message", "Add")].
+Proof. reflexivity. Qed.
